@@ -30,7 +30,9 @@ ASSUMPTIONS = [
 MAX_SKIP_FRACTION = 0.1
 REQUIRED_MONITORS = ["mean_photon", "fock_prob", "all_fock_probs", "parity_expectation", "number_expectation", "quad_expectation",
                      "fidelity_vacuum", "fidelity_coherent", "reduced_dm", "wigner", "poly_quad_expectation",
-                     "subset-order:raises-or-honours", "state(modes=ordered-subset)"]
+                     "subset-order:raises-or-honours", "state(modes=ordered-subset)",
+                     "nongauss:mean_photon", "nongauss:quad_expectation", "nongauss:reduced_dm", "nongauss:wigner", "nongauss:fock_prob",
+                     "nongauss:parity_expectation", "nongauss:fidelity"]
 
 
 def load():
@@ -415,9 +417,122 @@ def _check(case, rep, env, g, states, D, hbar):
         V("fock-mixed", "fock_prob", "inconsistent-with-all_fock_probs", "fock_prob(%s) != all_fock_probs()[%s]" % (pat, pat))
 
 
+def run_nongauss(case, rep, env):
+    """State methods on non-Gaussian states (cat / number states + Gaussian gates + loss) of the bosonic and Fock state
+    classes against RefFock (vf.reffock): the reference shares nothing with strawberryfields or The Walrus."""
+    from .. import nongauss as ng
+
+    sf, ops = env["sf"], env["ops"]
+    n = case["n"]
+    hbar = case.get("hbar", 2.0)
+    Dref = 28 if n == 1 else 22
+    f = ng.reference(case, Dref)
+    if f.tail(Dref - 4) > 1e-9:
+        rep.skip("nongauss reference truncation")
+        return
+    rep.case(["nongauss", rnd(case["cmds"], 6), hbar], len(case["cmds"]) >= 2)
+    rng = np.random.default_rng(case.get("qseed", 0))
+    Dq = 8 if n == 2 else 10
+    refdm = ng.ref_dm(f, Dq)
+    P = f.probs()
+    sf.hbar = hbar
+    try:
+        for conf in ({"backend": "bosonic"}, {"backend": "fock", "cutoff_dim": 14 if n == 2 else 18}):
+            lab = conf["backend"] + "(non-gaussian)"
+            eng = sf.Engine(conf["backend"], backend_options={k: v for k, v in conf.items() if k != "backend"})
+            st = eng.run(ng.build(sf, ops, case)).state
+            if conf["backend"] == "bosonic":
+                tol = 3e-2 if case.get("approx") else 2e-6
+            else:
+                tol = 20 * np.sqrt(f.tail(conf["cutoff_dim"])) + 1e-6
+
+            def V(method, kind, what):
+                rep.violation("%s.%s" % ("BaseBosonicState" if conf["backend"] == "bosonic" else "BaseFockState", method),
+                              "value:non-gaussian" + (":" + kind if kind else ""), "%s on a %s state: %s [tolerance %.1e]" % (method, lab, what, tol), case)
+
+            def num(x):
+                return float(np.real(x))
+
+            kw = {"cutoff": Dref - 2} if conf["backend"] == "bosonic" else {}
+            for m in range(n):
+                rep.monitor("nongauss:mean_photon")
+                mean, var = st.mean_photon(m, **kw)
+                rm, rv = f.mean_var_photon(m)
+                if abs(num(mean) - rm) > tol * (1 + rm) or abs(num(var) - rv) > 3 * tol * (1 + rv):
+                    V("mean_photon", "", "mode %d: (%.6f, %.6f), reference (%.6f, %.6f)" % (m, num(mean), num(var), rm, rv))
+                rep.monitor("nongauss:quad_expectation")
+                phi = float(rng.uniform(0, 6.28))
+                qm, qv = st.quad_expectation(m, phi)
+                mu, Vc = f.moments(hbar)
+                c, s_ = np.cos(phi), np.sin(phi)
+                rqm = c * mu[m] + s_ * mu[m + n]
+                rqv = c * c * Vc[m, m] + s_ * s_ * Vc[m + n, m + n] + 2 * c * s_ * Vc[m, m + n]
+                if abs(num(qm) - rqm) > tol * (1 + abs(rqm)) or abs(num(qv) - rqv) > 3 * tol * (1 + rqv):
+                    V("quad_expectation", "", "mode %d phi %.3f: (%.6f, %.6f), reference (%.6f, %.6f)" % (m, phi, num(qm), num(qv), rqm, rqv))
+                rep.monitor("nongauss:reduced_dm")
+                Dm = Dq
+                rd = np.asarray(st.reduced_dm([m], cutoff=Dm)) if conf["backend"] == "bosonic" else np.asarray(st.reduced_dm([m]))[:Dm, :Dm]
+                rr = f.reduced(m)[:Dm, :Dm]
+                d = float(np.max(np.abs(rd - rr)))
+                rep.dev("nongauss.reduced_dm:%s/tol" % conf["backend"], d / tol, 1.0)
+                if d > tol:
+                    V("reduced_dm", "", "mode %d differs from the reference by %.3e" % (m, d))
+                rep.monitor("nongauss:wigner")
+                xs = np.array([-1.0, 0.3, 1.2]) * np.sqrt(hbar / 2)
+                W = np.asarray(st.wigner(m, xs, xs))
+                for i, x in enumerate(xs):
+                    for j, pq in enumerate(xs):
+                        ref = ng.wigner_point(f, m, x, pq, hbar)
+                        got = W[j, i] if W.shape == (3, 3) else np.nan
+                        if not abs(num(got) - ref) <= tol * 3:
+                            V("wigner", "", "mode %d W(x=%.3f, p=%.3f) = %.6f, reference %.6f" % (m, x, pq, num(got), ref))
+                            break
+                    else:
+                        continue
+                    break
+            rep.monitor("nongauss:fock_prob")
+            worst = 0.0
+            for pat in itertools.product(range(4), repeat=n):
+                if conf["backend"] == "bosonic":
+                    pr = st.fock_prob(list(pat), cutoff=sum(pat) + 2)
+                else:
+                    pr = st.fock_prob(list(pat))
+                worst = max(worst, abs(num(pr) - float(P[pat])))
+            rep.dev("nongauss.fock_prob:%s/tol" % conf["backend"], worst / tol, 1.0)
+            if worst > tol:
+                V("fock_prob", "", "photon-number probabilities differ from the reference by %.3e" % worst)
+            rep.monitor("nongauss:parity_expectation")
+            modes = list(range(n)) if rng.random() < 0.5 else [int(rng.integers(n))]
+            par = st.parity_expectation(modes)
+            rp_ = f.parity(modes)
+            if abs(num(par) - rp_) > 5 * tol:
+                V("parity_expectation", "", "modes %s: %.6f, reference %.6f" % (modes, num(par), rp_))
+            rep.monitor("nongauss:fidelity")
+            fv = st.fidelity_vacuum()
+            if abs(num(fv) - float(P[(0,) * n])) > tol:
+                V("fidelity_vacuum", "", "%.6f, reference %.6f" % (num(fv), float(P[(0,) * n])))
+            al = [complex(rng.uniform(-0.7, 0.7), rng.uniform(-0.7, 0.7)) for _ in range(n)]
+            fc = st.fidelity_coherent(al)
+            rfc = f.fidelity_coherent(al)
+            if abs(num(fc) - rfc) > tol:
+                V("fidelity_coherent", "", "alpha %s: %.6f, reference %.6f" % (np.round(al, 3).tolist(), num(fc), rfc))
+            if n == 2:
+                rep.monitor("nongauss:number_expectation")
+                try:
+                    ne, _ = st.number_expectation([0, 1])
+                    k = np.arange(f.D)
+                    rne = float(np.sum(P * np.outer(k, k)))
+                    if abs(num(ne) - rne) > 5 * tol * (1 + rne):
+                        V("number_expectation", "", "<n0 n1> = %.6f, reference %.6f" % (num(ne), rne))
+                except NotImplementedError:
+                    rep.observe("nongauss:number_expectation-not-implemented:" + conf["backend"])
+    finally:
+        sf.hbar = 2
+
+
 def plan(tier, seed, scale=1.0):
     n = int((12 if tier == "quick" else 250) * scale)
-    return [{"n": n, "timeout": 3000} for _ in range(16)]
+    return [{"n": n, "nn": max(2, int((3 if tier == "quick" else 60) * scale)), "timeout": 6000} for _ in range(16)]
 
 
 def run_shard(shard, rep):
@@ -431,7 +546,24 @@ def run_shard(shard, rep):
             run_case(case, rep, env)
         except Exception as e:
             rep.error("run_case", e)
+    from .. import nongauss
+
+    for i in range(shard.get("nn", 0)):
+        case = nongauss.gen_case(rng)
+        case["nongauss"] = True
+        case["hbar"] = float(rng.choice([2.0, 2.0, 1.0]))
+        case["qseed"] = int(rng.integers(2 ** 31))
+        try:
+            run_nongauss(case, rep, env)
+        except Exception as e:
+            import traceback
+
+            tb = traceback.extract_tb(e.__traceback__)
+            rep.violation("state-method", "exception:non-gaussian:" + type(e).__name__, "%s: %s at %s" % (
+                type(e).__name__, str(e)[:160], "%s:%s" % (tb[-1].filename.split("/")[-1], tb[-1].name) if tb else "?"), case)
 
 
 def replay(case, rep):
+    if case.get("nongauss"):
+        return run_nongauss(case, rep, load())
     run_case(case, rep, load())
